@@ -1390,6 +1390,68 @@ def protocol_write_before_read(field):
 # ---- rule (iii): key-guarded memo
 
 
+MEMO_REJECTS = {}
+MUTATORS = {"append", "extend", "insert", "sort", "reverse", "pop", "remove", "clear", "update", "add", "discard", "setdefault", "popitem"}
+
+
+def _alias_mutation(G, key_expr, owners, R):
+    """reason (str) why the memo key `key_expr` (e.g. curve.points, curve = self.get_pump_curve()) may alias a container that some
+    method of its class mutates in place, or None when every method only rebinds the storage (a mutating call directly after a rebind
+    in the same block, like `self._points = copy(...); self._points.sort()`, acts on the fresh object and is fine)"""
+    ch = _chain(key_expr)
+    if not ch or len(ch) != 2:
+        return "memo key %s is not of the form <local>.<attribute>" % ast.unparse(key_expr)
+    local, attr = ch
+    getter = None
+    for m in ast.walk(G):
+        if isinstance(m, ast.Assign) and len(m.targets) == 1 and isinstance(m.targets[0], ast.Name) and m.targets[0].id == local \
+                and isinstance(m.value, ast.Call) and isinstance(m.value.func, ast.Attribute) and isinstance(m.value.func.value, ast.Name) \
+                and m.value.func.value.id == "self" and not m.value.args:
+            getter = m.value.func.attr
+    if getter is None or not owners:
+        return "cannot tell which object %s is" % local
+    for o in owners:
+        try:
+            obj = getattr(o, getter)()
+        except Exception as e:
+            return "%s() raises on the zoo instance: %s" % (getter, e)
+        T = type(obj)
+        try:
+            fields = [f.split(".")[0] for f in R.getter_storage(T, attr)]
+            tree = ast.parse(textwrap.dedent(inspect.getsource(T)))
+        except (OSError, TypeError, SyntaxError, BrokenTie) as e:
+            return "cannot read class %s: %s" % (T.__name__, e)
+
+        def is_store(x, f):
+            return isinstance(x, ast.Attribute) and x.attr == f and isinstance(x.value, ast.Name) and x.value.id == "self"
+
+        for f in fields:
+            for fn in ast.walk(tree):
+                if not isinstance(fn, ast.FunctionDef):
+                    continue
+                def scan(body):
+                    rebound = False
+                    for st in body:
+                        if isinstance(st, ast.Assign) and any(is_store(t, f) for t in st.targets):
+                            rebound = True
+                            continue
+                        for m in ast.walk(st):
+                            bad = None
+                            if isinstance(m, ast.Subscript) and isinstance(m.ctx, (ast.Store, ast.Del)) and is_store(m.value, f):
+                                bad = "assigns into self.%s[...]" % f
+                            elif isinstance(m, ast.AugAssign) and is_store(m.target, f):
+                                bad = "updates self.%s in place" % f
+                            elif isinstance(m, ast.Call) and isinstance(m.func, ast.Attribute) and m.func.attr in MUTATORS and is_store(m.func.value, f):
+                                bad = None if rebound else "calls self.%s.%s()" % (f, m.func.attr)
+                            if bad:
+                                return "%s.%s %s (line %d of the class): the memo key aliases that container" % (T.__name__, fn.name, bad, m.lineno)
+                    return None
+                r = scan(fn.body)
+                if r:
+                    return r
+    return None
+
+
 def guarded_memo_pairs(wntr, inst, R, reads):
     """[(cls, M, K, evidence)]: method G of an element class whose top-level body contains
         if self.M is None or <E> != self.K:  h(...)        (h nested in G, the ONLY place that assigns self.K = <E'> and self.M = ...,
@@ -1484,6 +1546,13 @@ def guarded_memo_pairs(wntr, inst, R, reads):
             if not ok:
                 continue
             conc = [k for k in ELEMENT_CLASSES if _derives(bases, k, c)]
+            # the stored key must not alias a container that is updated in place: E = <local>.<attr> with <local> = self.<getter>();
+            # the class of that object (reflection on the zoo instance) must only ever REBIND the storage behind <attr>
+            alias = _alias_mutation(G, es[0], [inst[k] for k in conc if k in inst], R)
+            if alias:
+                for k in conc:
+                    MEMO_REJECTS[(k, M)] = MEMO_REJECTS[(k, K)] = "rule (iii) fails: " + alias
+                ok = False
             # no run-time function outside elements.py touches the two names (no property returns them: checked through reads)
             for k in conc:
                 for f in (M, K):
@@ -1539,7 +1608,12 @@ def not_read_before_write(wntr, inst, R, written, action_names):
             else:
                 decisions[sl] = ("out", decisions[sl][1] + "; rule (ii) fails: " + why)
     # (iii) key-guarded memos
-    for (c, M, K, why) in guarded_memo_pairs(wntr, inst, R, reads):
+    MEMO_REJECTS.clear()
+    pairs = guarded_memo_pairs(wntr, inst, R, reads)
+    for sl, why in MEMO_REJECTS.items():
+        if sl in decisions and decisions[sl][0] == "out":
+            decisions[sl] = ("out", decisions[sl][1] + "; " + why)
+    for (c, M, K, why) in pairs:
         for f in (M, K):
             if (c, f) in written and (c, f) not in out:
                 out.append((c, f))
@@ -2145,6 +2219,11 @@ def scenario_specs(rng):
             ctr += [{"kind": "time", "time": hyd * 1, "action": {"link": "P9", "attr": "status", "value": 0}},
                     {"kind": "time", "time": hyd * rng.choice([3, 4]), "action": {"link": "P9", "attr": "status", "value": 1}}]
         out.append(("isolated-junction-" + mode, {"net": net, "controls": ctr, "same_sim": True}))
+    # daily repeating time controls in a run longer than one day (the second occurrence is threshold + 24 h)
+    net = _small_net(pump="POWER", valve=None, steps=27)
+    ctr = [{"kind": "time", "time": hyd * 1, "repeat": True, "action": {"link": "P5", "attr": "status", "value": 0}},
+           {"kind": "time", "time": hyd * rng.choice([2, 3]), "repeat": True, "action": {"link": "P5", "attr": "status", "value": 1}}]
+    out.append(("repeating-time-control", {"net": net, "controls": ctr}))
     # edit cycle: the head-pump curve (1-point and 3-point), a pattern and a tank level are changed through the public setters
     # between two runs of the same object
     for npts in (1, 3):
@@ -2212,7 +2291,7 @@ def build_model(wntr, spec, fresh=True):
 
     for i, c in enumerate(spec.get("controls", [])):
         if c["kind"] == "time":
-            ctrl = ctl.Control._time_control(wn, c["time"], "SIM_TIME", False, mk_action(c["action"]))
+            ctrl = ctl.Control._time_control(wn, c["time"], "SIM_TIME", bool(c.get("repeat", False)), mk_action(c["action"]))
         elif c["kind"] == "cond":
             ctrl = ctl.Control(mk_cond(c["cond"]), mk_action(c["action"]))
         else:
@@ -2413,12 +2492,15 @@ def run_epanet(wntr, wn, prefix):
     return ("ok", tabs, str(getattr(res, "error_code", None)))
 
 
+# physical scale below which a table is 'all zeros' for the absolute part of the tolerance (a stagnant network has velocities of
+# 1e-6 m/s whose last-bit flow noise, multiplied by 4/(pi d^2), is 1e-12 m/s)
+SCALE_FLOOR = {"head": 1.0, "pressure": 1.0, "velocity": 0.1, "flowrate": 1e-3, "demand": 1e-3, "leak_demand": 1e-3, "setting": 1e-3}
 RTOL = 1e-9  # see the module docstring: the evaluator orders unknowns by heap address, so reruns agree to ~1e-13, not bit for bit
 
 
 def cmp_outcomes(a, b, rtol=RTOL):
     """None when equal, else a short description of the first difference (table, column, time, values).
-    Continuous tables: |x - y| <= rtol * max(|x|, |y|) + rtol * max(1e-3, max|table|); status tables and the time index: exact."""
+    Continuous tables: |x - y| <= rtol * max(|x|, |y|) + rtol * max(SCALE_FLOOR[table], max|table|); status tables and the time index: exact."""
     import numpy as np
 
     if a[0] != b[0]:
@@ -2443,7 +2525,7 @@ def cmp_outcomes(a, b, rtol=RTOL):
             eq = (va == vb) | both_nan
         else:
             fin = np.where(np.isfinite(va), np.abs(va), 0.0)
-            scale = max(1e-3, float(fin.max()) if fin.size else 0.0)
+            scale = max(SCALE_FLOOR.get(k.split('.')[-1], 1e-3), float(fin.max()) if fin.size else 0.0)
             with np.errstate(invalid="ignore"):
                 eq = (np.abs(va - vb) <= rtol * np.maximum(np.abs(va), np.abs(vb)) + rtol * scale) | both_nan | (va == vb)
         if not eq.all():
@@ -2466,7 +2548,7 @@ def max_rel_diff(a, b):
         if k in b[1] and a[1][k][2].shape == b[1][k][2].shape:
             va, vb = a[1][k][2], b[1][k][2]
             fin = np.where(np.isfinite(va), np.abs(va), 0.0)
-            scale = max(1e-3, float(fin.max()) if fin.size else 0.0)
+            scale = max(SCALE_FLOOR.get(k.split('.')[-1], 1e-3), float(fin.max()) if fin.size else 0.0)
             with np.errstate(invalid="ignore", divide="ignore"):
                 d = np.abs(va - vb) / (np.maximum(np.abs(va), np.abs(vb)) + scale)
             d = np.where(np.isfinite(d), d, 0.0)
@@ -3123,7 +3205,14 @@ class Judge:
             for e in edits:
                 self.count("edit:" + e["what"])
             d = self.edit_cycle(spec, edits, used=wn)   # wn has been simulated several times above; it is edited here, last
-            if d is not None:
+            if d is not None and self.edit_cycle(spec, []) is not None:
+                # the already-simulated model differs from its reloaded twin even WITHOUT an edit: what the run left behind is the
+                # cause (reported by the rerun oracles above), not the edit
+                self.count("edit-cycle:differs-without-edit")
+                if not out:
+                    out.append(("used-model-differs-from-reloaded", "run; reset_initial_values; run differs from the run of the model "
+                                "re-created from the simulated model's dictionary (equal to_dict): " + d, {}))
+            elif d is not None:
                 resp = [e for e in edits if len(edits) == 1 or self.edit_cycle(spec, [e]) is not None] or edits
                 what = "+".join(sorted(set(e["what"] for e in resp)))
                 out.append(("edited-model-differs-from-reloaded:" + what,
